@@ -169,3 +169,52 @@ def small_scope(rng, v11: bool) -> list[dict]:
         for i in range(len(ELEM_ITEMS)):
             out.append(gen_case_W(rng, v11, force=(c, 'elem', i)))
     return out
+
+
+# ------------------------------------------------------------------------------------------------
+# family I (XSD 1.1 only): inheritable attributes.  XsdElement.raw_decode works on a COPY of the
+# validation context below an element that carries an inheritable attribute (elements.py:713-723):
+# whatever the descent accumulates in the context (errors of a lax run, ID map) must survive the copy.
+
+XSD_I = '''<xs:schema xmlns:xs="http://www.w3.org/2001/XMLSchema">
+ <xs:element name="top"><xs:complexType><xs:sequence>
+   <xs:element name="a" type="xs:int" minOccurs="0" maxOccurs="unbounded"/>
+   <xs:element name="sec" minOccurs="0" maxOccurs="unbounded"><xs:complexType><xs:sequence>
+     <xs:element name="b" type="xs:int" minOccurs="0" maxOccurs="unbounded"/>
+     <xs:element name="sub" minOccurs="0"><xs:complexType><xs:sequence>
+       <xs:element name="c" type="xs:boolean" minOccurs="0" maxOccurs="unbounded"/></xs:sequence>
+       <xs:attribute name="lang" type="xs:language" inheritable="true"/></xs:complexType></xs:element>
+    </xs:sequence>
+    <xs:attribute name="lang" type="xs:language" inheritable="true"/>
+    <xs:attribute name="n" type="xs:int"/></xs:complexType></xs:element>
+   <xs:element name="z" type="xs:int" minOccurs="0"/>
+  </xs:sequence>
+  <xs:attribute name="lang" type="xs:language" inheritable="true"/>
+  <xs:attribute name="plain" type="xs:string"/></xs:complexType></xs:element>
+</xs:schema>'''
+
+I_BAD = ['none', 'a', 'b', 'c', 'z', 'n', 'lang', 'a+c', 'unexpected-child-in-sub']
+
+
+def doc_I(mask: int, bad: str, rng=None) -> dict:
+    """mask bit 0/1/2: the inheritable attribute is present on top / sec / sub"""
+    def lang(bit: int, value: str = 'en') -> str:
+        return ' lang="%s"' % value if mask & bit else ''
+    bads = set(bad.split('+'))
+    a2 = 'x' if 'a' in bads else '3'
+    b = 'y' if 'b' in bads else '2'
+    c = 'maybe' if 'c' in bads else 'true'
+    z = '<z>%s</z>' % ('q' if 'z' in bads else '9')
+    n = 'x' if 'n' in bads else '5'
+    extra = '<d/>' if 'unexpected-child-in-sub' in bads else ''
+    top_lang = lang(1, 'not a lang' if 'lang' in bads else 'en')
+    xml = ('<top%s plain="p"><a>1</a><a>%s</a><sec%s n="%s"><b>%s</b><sub%s><c>%s</c>%s</sub></sec>%s</top>'
+           % (top_lang, a2, lang(2, 'it'), n, b, lang(4, 'de'), c, extra, z))
+    faults = [] if bad == 'none' else ['I bad ' + bad]
+    where = '+'.join(w for bit, w in ((1, 'top'), (2, 'sec'), (4, 'sub')) if mask & bit) or 'nowhere'
+    return {'family': 'I', 'style': 'prefix', 'v': '1.1', 'xml': xml, 'faults': faults, 'prefix_dependent': False,
+            'idims': ['inheritable-present:' + where, 'error-at:' + bad]}
+
+
+def small_scope_I() -> list[dict]:
+    return [doc_I(mask, bad) for mask in range(8) for bad in I_BAD]
